@@ -128,7 +128,12 @@ def replay(run, task, o, cex, paths):
             d = json.load(open(paths[task['real']]))
             P = int(d['Field'])
             n = task['n']
-            ov = {} if cex.get('honest') else {(0, i): v for i, v in enumerate(cex.get('digits', []))}
+            nb = [hi for hi, h in enumerate(d.get('Hints') or []) if h['Name'].endswith('NBits')]
+            ov = {}
+            if not cex.get('honest'):
+                for j, hd in enumerate(cex.get('hints', [])):
+                    if j < len(nb):
+                        ov.update({(nb[j], i): v for i, v in enumerate(hd)})
             _, failed = eval_r1cs(d, [cex['V']] + cex['out'], hint_override=ov)
             valid = bitgadgets.trbe_oracle(P, n, cex['V'], cex['out'])
             if (not failed) != valid:
